@@ -210,7 +210,7 @@ Section CisLock.
     intros. unfold op_free_stateid, done. destruct (negb (s_hi s =? 0)); [apply vp_refl|].
     destruct (find_lofs (s_lo s) (c_oofs c)) as [[o lf]|] eqn:Ef; [|apply vp_refl].
     destruct (find_lofs_found _ _ _ Ef) as [F1 [F2 [F3 F4]]].
-    destruct (negb (_ =? NFS4_OK)); [apply vp_refl|]. destruct (0 <? lf_count lf)%Z; [apply vp_refl|].
+    destruct (negb (_ =? NFS4_OK)); [apply vp_refl|]. destruct (0 <? lf_count lf)%Z eqn:Egate; [apply vp_refl|].
     destruct (lofs_remove_all false [lf] o (c_lowners c) (st_pool st)) as [[[[o1 lows] pool1] outs] pn] eqn:Er.
     cbn [sr_st].
     assert (Hfound : exists c0, kfind vc_id (c_id c) (map vc (st_clients st)) = Some c0) by eauto.
@@ -218,8 +218,10 @@ Section CisLock.
     assert (Hall : forall lf0, In lf0 [lf] -> kfind lf_other (lf_other lf0) (of_lofs o) = Some lf0).
     { intros lf0 [<-|[]]. exact F4. }
     assert (Hnd1 : NoDup (map lf_other [lf])) by (cbn; constructor; [intros []|constructor]).
+    assert (Hgate : false = false -> forall lf0, In lf0 [lf] -> (lf_count lf0 <= 0)%Z).
+    { intros _ lf0 [<-|[]]. apply Z.ltb_ge in Egate. exact Egate. }
     destruct (lofs_rm_view Q _ (st_nextlo st) (c_id c) Hfound false [lf] o (c_lowners c) (st_pool st) o1 lows pool1 outs pn
-                Er F2 Hnd1 Hall (map vo (c_oofs c)) Hvoo (vfind_oofs _ _ _ F1))
+                Er F2 Hnd1 Hall Hgate (map vo (c_oofs c)) Hvoo (vfind_oofs _ _ _ F1))
       as [P _].
     rewrite S_start in P.
     match goal with |- vpath _ _ (view ?s0) => rewrite (view_put s0 _ pool1 (st_nextlo st) eq_refl eq_refl eq_refl) end.
